@@ -2,9 +2,10 @@
    Line-based readers: the tokens the scanner delivers are [lines data] for every schedule of read sizes
    (zero-length reads and data-with-EOF included), so every reader that is a function of the token list is
    schedule-independent.  STL: a block that is present in full is returned whole for every schedule.
-   TTML and teletext hand the stream to encoding/xml and astits: covered by the harness only. *)
+   The SSA/ASS reader is such a function too (C17_ssa).  TTML and teletext hand the stream to encoding/xml and astits: covered by the harness only. *)
 From Coq Require Import List NArith Bool Arith.
 From Astisub Require Import Kit.Base Kit.Scan Model.Srt Model.Vtt Proofs.ScanProofs Proofs.SrtIOProofs Proofs.VttIOProofs.
+From Astisub Require Import Model.Ssa Proofs.SsaIOProofs.
 Import ListNotations.
 Open Scope N_scope.
 
@@ -31,6 +32,12 @@ Proof. exact read_srt_schedule. Qed.
 (* the WebVTT reader under any schedule *)
 Theorem C17_vtt : forall data counts, read_vtt_lines (scan data counts) false = read_vtt data.
 Proof. exact read_vtt_schedule. Qed.
+(* the SSA/ASS reader under any schedule *)
+Theorem C17_ssa : forall data counts, read_ssa_lines (scan data counts) false = read_ssa data.
+Proof. exact read_ssa_schedule. Qed.
+Theorem C17_ssa_schedule_independent : forall data counts counts',
+  read_ssa_lines (scan data counts) false = read_ssa_lines (scan data counts') false.
+Proof. exact read_ssa_schedule_independent. Qed.
 
 (* STL block reads (io.ReadFull semantics) *)
 Theorem C17_stl_block : forall n data counts, (n <= length data)%nat ->
@@ -51,3 +58,5 @@ Print Assumptions C17_lines_last.
 Print Assumptions C17_srt.
 Print Assumptions C17_stl_block.
 Print Assumptions C17_vtt.
+Print Assumptions C17_ssa.
+Print Assumptions C17_ssa_schedule_independent.
